@@ -618,3 +618,159 @@ Proof.
       apply mem_false in Hq. contradiction. }
     split; eapply exec_frame; eauto using inv_bk0, incl_refl.
 Qed.
+
+(* ------------------------------------------------------------------ soundness invariant *)
+Definition same_or_q (c : config) (f f0 : fs) (p : path) : Prop :=
+  lookup f p = lookup f0 p \/
+  (wq c p = true /\ is_file (lookup f p) = true /\ is_file (lookup f0 p) = true).
+
+(* relative to the initial file system f0:
+   J1 what this run has not created (and does not own) is as it was — except the content of
+      the writable query file;
+   J2 what it created was absent at the start (or is an output it owns);
+   J3 created_below_fresh: what it created is an owned output or lies under scratch;
+   J4 it owns only declared outputs *)
+Definition J (f0 : fs) (c : config) (f : fs) (b : bk) : Prop :=
+  (forall p, ~ In p (b_created b) -> ~ In p (b_dirs b) -> ~ In p (b_owned b) -> same_or_q c f f0 p) /\
+  (forall p, In p (b_created b) \/ In p (b_dirs b) -> In p (b_owned b) \/ lookup f0 p = None) /\
+  (forall p, In p (b_created b) -> In p (b_owned b) \/ under (c_scratch c) p = true) /\
+  (forall p, In p (b_dirs b) -> under (c_scratch c) p = true) /\
+  (forall p, In p (b_owned b) -> In p (c_outputs c)).
+
+Lemma J_init : forall c f0, J f0 c f0 bk0.
+Proof.
+  intros. repeat split; simpl; intros; try contradiction; try (destruct H; contradiction).
+  left. reflexivity.
+Qed.
+
+Lemma soq_set : forall c f f0 p ent x, p <> x -> same_or_q c f f0 x -> same_or_q c (set p ent f) f0 x.
+Proof.
+  intros c f f0 p ent x Hn H. unfold same_or_q in *. rewrite lookup_set.
+  apply path_eqb_neq in Hn. rewrite Hn. assumption.
+Qed.
+
+Lemma soq_del : forall c f f0 p x, p <> x -> same_or_q c f f0 x -> same_or_q c (remove p f) f0 x.
+Proof.
+  intros c f f0 p x Hn H. unfold same_or_q in *. rewrite lookup_remove.
+  apply path_eqb_neq in Hn. rewrite Hn. assumption.
+Qed.
+
+Lemma creatable_under : forall c b p,
+  (forall d, In d (b_dirs b) -> under (c_scratch c) d = true) ->
+  creatable c b p = true -> under (c_scratch c) p = true.
+Proof.
+  intros c b p Hd H. apply creatable_spec in H. destruct H as [[n ->]|[d [n [Hi ->]]]].
+  - apply under_spec. exists n, []. reflexivity.
+  - specialize (Hd d Hi). apply under_spec in Hd. destruct Hd as [m [r ->]].
+    apply under_spec. exists m, (r ++ [n]). rewrite <- app_assoc. reflexivity.
+Qed.
+
+(* a path outside the declared outputs that is absent now was absent at the start *)
+Lemma J_absent : forall f0 c f b p,
+  J f0 c f b -> ~ In p (c_outputs c) -> lookup f p = None -> lookup f0 p = None.
+Proof.
+  intros f0 c f b p [J1 [J2 [J3 [J3b J4]]]] Ho Hl.
+  assert (Hw : ~ In p (b_owned b)) by (intro A; apply Ho; apply J4; assumption).
+  destruct (mem p (b_created b)) eqn:Mc.
+  { apply mem_In in Mc. destruct (J2 p (or_introl Mc)) as [A|A]; [contradiction | assumption]. }
+  apply mem_false in Mc.
+  destruct (mem p (b_dirs b)) eqn:M.
+  - apply mem_In in M. destruct (J2 p (or_intror M)) as [A|A]; [contradiction | assumption].
+  - apply mem_false in M. destruct (J1 p Mc M Hw) as [A|[_ [A _]]].
+    + congruence.
+    + rewrite Hl in A. discriminate.
+Qed.
+
+Ltac fin :=
+  repeat (match goal with
+          | H : _ \/ _ |- _ => destruct H
+          | H : _ /\ _ |- _ => destruct H
+          | H : In _ (add _ _) |- _ => apply In_add in H
+          | H : In _ (del _ _) |- _ => apply In_del in H
+          end); subst; auto.
+
+(* ~ In x l  from  ~ In x (add p l)  or  ~ In x (del p l) with p <> x *)
+Ltac notin :=
+  let A := fresh "A" in
+  intro A;
+  match goal with
+  | H : ~ In _ (add _ (del _ _)) |- _ =>
+      apply H; apply In_add; right; apply In_del; split; [congruence | assumption]; fail
+  | H : ~ In _ (add _ _) |- _ => apply H; apply In_add; auto; fail
+  | H : ~ In _ (del _ _) |- _ => apply H; apply In_del; split; [congruence | assumption]; fail
+  | H : ~ In _ _ |- _ => apply H; assumption
+  end.
+
+Lemma decide_keeps_J : forall f0 c f b o e b',
+  J f0 c f b -> decide c f b o = Ok (e, b') -> J f0 c (apply e f) b'.
+Proof.
+  intros f0 c f b o e b' HJ H.
+  assert (HA : forall p, ~ In p (c_outputs c) -> lookup f p = None -> lookup f0 p = None)
+    by (intros; eapply J_absent; eauto).
+  destruct HJ as [J1 [J2 [J3 [J3b J4]]]].
+  assert (HU : forall p, creatable c b p = true -> under (c_scratch c) p = true)
+    by (intros; eapply creatable_under; eauto).
+  decide_inv H; norm; cbn [apply]; unfold J; bk_simpl.
+  all: try (repeat split; assumption).
+  all: split; [intros x Hc Hd Ho | split; [intros x Hx | split; [intros x Hx | split; [intros x Hx | intros x Hx]]]].
+  (* J4 *)
+  all: try (match goal with |- In _ (c_outputs _) => fin end; fail).
+  (* J3b *)
+  all: try (match goal with |- under _ _ = true => fin end; fail).
+  (* J3 *)
+  all: try (match goal with |- _ \/ under _ _ = true =>
+              fin; try (left; apply In_add; auto; fail); try (right; auto; fail);
+              match goal with H : In ?x (b_created _) |- _ =>
+                destruct (J3 x H); [left; try apply In_add; auto | right; auto] end
+            end; fail).
+  (* J2 *)
+  all: try (match goal with |- _ \/ lookup _ _ = None =>
+              fin; try (left; apply In_add; auto; fail); try (right; auto; fail);
+              try (match goal with H : In ?x (b_created _) |- _ =>
+                     destruct (J2 x (or_introl H)); [left; solve [auto | apply In_add; auto] | right; solve [auto]] end);
+              try (match goal with H : In ?x (b_dirs _) |- _ =>
+                     destruct (J2 x (or_intror H)); [left; solve [auto | apply In_add; auto] | right; solve [auto]] end)
+            end; fail).
+  (* J1: ESet *)
+  all: try (match goal with |- same_or_q _ (set ?p _ ?g) _ ?x =>
+              match g with
+              | remove _ _ => fail 1
+              | _ => destruct (path_eqb p x) eqn:Epx; norm;
+                     [ try (exfalso; apply Hc; apply In_add; auto; fail)
+                     | apply soq_set; [assumption|]; apply J1; notin ]
+              end
+            end; fail).
+  (* J1: EMove (Rename) *)
+  all: try (match goal with |- same_or_q _ (set ?q _ (remove ?p _)) _ ?x => destruct (path_eqb q x) eqn:Eqx; norm;
+    [ exfalso; apply Hc;
+      solve [ apply In_add; auto | apply In_del; split; [congruence | assumption] ]
+    | destruct (path_eqb p x) eqn:Epx; norm;
+      [ left; rewrite lookup_set, lookup_remove;
+        match goal with H : ?a <> ?b |- context [path_eqb ?a ?b] =>
+          apply path_eqb_neq in H; rewrite H end;
+        rewrite path_eqb_refl; symmetry;
+        match goal with |- lookup _ ?y = None =>
+          match goal with H : In y (b_created _) |- _ =>
+            destruct (J2 y (or_introl H)) as [A|A];
+            [exfalso; apply Ho; solve [assumption | apply In_add; auto] | assumption] end end
+      | apply soq_set; [assumption|]; apply soq_del; [assumption|]; apply J1;
+        try notin; try (intro A; apply Ho; apply In_add; auto) ] ] end; fail).
+  (* J1: ESet with unchanged book-keeping (OpenW, Create of an own file) *)
+  - destruct (path_eqb p x) eqn:Epx; norm.
+    + destruct E0 as [E0|E0]; norm; [contradiction|].
+      right. split; [assumption|]. split; [rewrite lookup_set, path_eqb_refl; reflexivity|].
+      destruct (J1 _ Hc Hd Ho) as [A|[_ [_ A]]]; [rewrite <- A; assumption | assumption].
+    + apply soq_set; [assumption|]. apply J1; assumption.
+  - destruct (path_eqb p x) eqn:Epx; norm.
+    + contradiction.
+    + apply soq_set; [assumption|]. apply J1; assumption.
+  (* J1: EDel (Unlink, Rmdir) *)
+  - destruct (path_eqb p x) eqn:Epx; norm.
+    + left. rewrite lookup_remove, path_eqb_refl. symmetry.
+      destruct (J2 x (or_introl E0)) as [A|A]; [contradiction | assumption].
+    + apply soq_del; [assumption|]. apply J1; notin.
+  - destruct (path_eqb p x) eqn:Epx; norm.
+    + left. rewrite lookup_remove, path_eqb_refl. symmetry.
+      destruct (J2 x (or_intror E0)) as [A|A]; [contradiction | assumption].
+    + apply soq_del; [assumption|]. apply J1; notin.
+Qed.
